@@ -12,7 +12,7 @@ ENV = dict(os.environ, GOFLAGS="-mod=mod", GOPROXY="off", GOSUMDB="off", GOTOOLC
 
 
 def sh(cmd, cwd=None, timeout=3000):
-    return subprocess.run(cmd, shell=True, text=True, cwd=cwd, env=ENV, stdout=subprocess.PIPE, stderr=subprocess.STDOUT, timeout=timeout)
+    return subprocess.run(cmd, shell=True, text=True, errors="replace", cwd=cwd, env=ENV, stdout=subprocess.PIPE, stderr=subprocess.STDOUT, timeout=timeout)
 
 
 def main():
@@ -63,7 +63,7 @@ def main():
     notes = os.path.join(wt, "SEED_NOTES.md")
     if os.path.exists(notes):
         shutil.copy(notes, os.path.join(dst, "NOTES.md"))
-        meta["needs"] = open(notes).read()[:1500]
+        meta["needs"] = open(notes, errors="replace").read()[:1500]
     # 3. run the checks against it: in the scratch worktree itself (VERIF_REPO), never in /repo
     sh("git checkout -- verif_hooks.go", cwd=wt)
     for d in demos:
